@@ -54,7 +54,12 @@ def run(module, cfg, work, *, workers=16, simulate=None, depth=None, seed=None,
         cfg += "CONSTANTS\n" + "".join(f"  {k} <- MC_{k}\n" for k in defs)
         module = mc
     (d / f"{module}.cfg").write_text(cfg)
-    cmd = ["java", "-XX:+UseParallelGC", f"-Xmx{heap}", "-cp", JAR]
+    if workers == 1:
+        # many single-worker TLCs run side by side: keep each JVM lean
+        cmd = ["java", "-XX:+UseSerialGC", "-Xms128m", "-Xmx768m", "-XX:TieredStopAtLevel=1",
+               "-XX:CICompilerCount=1", "-Xshare:auto", "-cp", JAR]
+    else:
+        cmd = ["java", "-XX:+UseParallelGC", f"-Xmx{heap}", "-cp", JAR]
     if tool_opts:
         cmd += tool_opts
     cmd += ["tlc2.TLC", "-workers", str(workers), "-metadir", str(d / "meta"),
